@@ -30,7 +30,7 @@ PROBES = ["pred_chunk_lacks_fold", "one_row_last_chunk", "spectrum_split_across_
           "switch_in_get_rows", "switch_in_save_chunks", "parquet", "workers>=8", "dedup_off", "rollup_off",
           "multi_file", "order_sensitive_learner", "sklearn_learner", "merge_chunk_small", "protein_level",
           "pep_files_compared_strictly", "pep_files_checked_for_shape_only", "feature_with_missing_values", "ensemble_mode", "proba_only_learner",
-          "spectrum_key_with_missing_values", "parquet_dictionary_typed_strings"]
+          "spectrum_key_with_missing_values", "parquet_dictionary_typed_strings", "parquet_written_from_sliced_frame"]
 RULE = (
     "Each scenario = one seeded tie-free data set + configuration (learner, folds, seeds, rollup/decoy/dedup "
     "switches) executed as reference (text, knobs > file, 1 worker, no threads) and as perturbed execution "
@@ -115,6 +115,8 @@ def make_scenario(seed):
     scn = {"property": PROPERTY, "seed": seed, "data": dp, "cfg": cfg, "pert": pert}
     if fmt == "parquet" and rng.random() < 0.35:
         pert["dict_strings"] = True  # low-cardinality string columns stored dictionary-typed (a pandas Categorical)
+    if fmt == "parquet" and rng.random() < 0.3:
+        pert["index_start"] = rng.choice([1, 40, 10**6])  # the file was written by pandas from a sliced frame
     if "ExpMass" in dp["spec_extra"] and dp["max_per_spectrum"] > 1 and rng.random() < 0.4:
         dp["nan_key"] = rng.choice([0.1, 0.25])  # some spectra lack the measured mass (a missing value in the spectrum key)
     if rng.random() < 0.25 and cfg["conf"]["rollup"]:
@@ -304,7 +306,7 @@ def run_scenario(scn, workdir):
     cfg2["max_workers"] = pert["max_workers"]
     got = P.run_pipeline(tables, cfg2, workdir, "pert", fmt=pert["format"], row_group=pert.get("row_group"),
                          sched_desc=pert.get("sched"), knobs=pert.get("knobs"), glob_seed=pert.get("glob_seed"),
-                         dict_strings=bool(pert.get("dict_strings")))
+                         dict_strings=bool(pert.get("dict_strings")), index_start=int(pert.get("index_start") or 0))
     sch = got.sched
     sstats = sch.stats()
     kn = pert.get("knobs") or {}
@@ -332,6 +334,7 @@ def run_scenario(scn, workdir):
         "feature_with_missing_values": int(bool(scn["data"].get("nan_feature"))),
         "spectrum_key_with_missing_values": int(bool(scn["data"].get("nan_key"))),
         "parquet_dictionary_typed_strings": int(bool(scn["pert"].get("dict_strings"))),
+        "parquet_written_from_sliced_frame": int(bool(scn["pert"].get("index_start"))),
         "ensemble_mode": int(bool(cfg.get("ensemble"))),
     }
     rg = pert.get("row_group")
@@ -504,6 +507,8 @@ def shrink_candidates(scn):
         c = clone(scn); c["data"]["nan_key"] = 0; yield c
     if scn["pert"].get("dict_strings"):
         c = clone(scn); c["pert"]["dict_strings"] = False; yield c
+    if scn["pert"].get("index_start"):
+        c = clone(scn); c["pert"]["index_start"] = 0; yield c
     for x in list(dp["spec_extra"]):
         c = clone(scn); c["data"]["spec_extra"] = [y for y in dp["spec_extra"] if y != x]; yield c
     if dp["n_spectra"] > 70:
